@@ -160,6 +160,10 @@ var malformedDocs = []malformedDoc{
 	{"param-filter-is-not-defined-with-text-match", "caldav", "REPORT", "coll", xmlHdr + `<C:calendar-query xmlns:D="DAV:" xmlns:C="` + nsCal + `"><D:prop><D:getetag/></D:prop><C:filter><C:comp-filter name="VCALENDAR"><C:comp-filter name="VEVENT"><C:prop-filter name="ATTENDEE"><C:param-filter name="PARTSTAT"><C:is-not-defined/><C:text-match>x</C:text-match></C:param-filter></C:prop-filter></C:comp-filter></C:comp-filter></C:filter></C:calendar-query>`, "application/xml"},
 	{"invalid-negate-condition", "caldav", "REPORT", "coll", xmlHdr + `<C:calendar-query xmlns:D="DAV:" xmlns:C="` + nsCal + `"><D:prop><D:getetag/></D:prop><C:filter><C:comp-filter name="VCALENDAR"><C:comp-filter name="VEVENT"><C:prop-filter name="SUMMARY"><C:text-match negate-condition="maybe">x</C:text-match></C:prop-filter></C:comp-filter></C:comp-filter></C:filter></C:calendar-query>`, "application/xml"},
 	{"invalid-time-range-date", "caldav", "REPORT", "coll", xmlHdr + `<C:calendar-query xmlns:D="DAV:" xmlns:C="` + nsCal + `"><D:prop><D:getetag/></D:prop><C:filter><C:comp-filter name="VCALENDAR"><C:comp-filter name="VEVENT"><C:time-range start="2024-01-01"/></C:comp-filter></C:comp-filter></C:filter></C:calendar-query>`, "application/xml"},
+	{"impossible-date-feb-30", "caldav", "REPORT", "coll", xmlHdr + `<C:calendar-query xmlns:D="DAV:" xmlns:C="` + nsCal + `"><D:prop><D:getetag/></D:prop><C:filter><C:comp-filter name="VCALENDAR"><C:comp-filter name="VEVENT"><C:time-range start="20240230T000000Z" end="20240301T000000Z"/></C:comp-filter></C:comp-filter></C:filter></C:calendar-query>`, "application/xml"},
+	{"impossible-date-feb-29-non-leap", "caldav", "REPORT", "coll", xmlHdr + `<C:calendar-query xmlns:D="DAV:" xmlns:C="` + nsCal + `"><D:prop><D:getetag/></D:prop><C:filter><C:comp-filter name="VCALENDAR"><C:comp-filter name="VEVENT"><C:time-range start="20230229T120000Z"/></C:comp-filter></C:comp-filter></C:filter></C:calendar-query>`, "application/xml"},
+	{"impossible-date-apr-31", "caldav", "REPORT", "coll", xmlHdr + `<C:calendar-query xmlns:D="DAV:" xmlns:C="` + nsCal + `"><D:prop><D:getetag/></D:prop><C:filter><C:comp-filter name="VCALENDAR"><C:comp-filter name="VEVENT"><C:prop-filter name="DTSTART"><C:time-range end="20240431T000000Z"/></C:prop-filter></C:comp-filter></C:comp-filter></C:filter></C:calendar-query>`, "application/xml"},
+	{"impossible-time-24h", "caldav", "REPORT", "coll", xmlHdr + `<C:calendar-query xmlns:D="DAV:" xmlns:C="` + nsCal + `"><D:prop><D:getetag/></D:prop><C:filter><C:comp-filter name="VCALENDAR"><C:comp-filter name="VEVENT"><C:time-range start="20240101T246000Z"/></C:comp-filter></C:comp-filter></C:filter></C:calendar-query>`, "application/xml"},
 	{"calendar-data-allprop-and-prop", "caldav", "REPORT", "coll", xmlHdr + `<C:calendar-multiget xmlns:D="DAV:" xmlns:C="` + nsCal + `"><D:prop><C:calendar-data><C:comp name="VCALENDAR"><C:allprop/><C:prop name="VERSION"/></C:comp></C:calendar-data></D:prop><D:href>/u/cal/work/e0.ics</D:href></C:calendar-multiget>`, "application/xml"},
 	{"calendar-data-allcomp-and-comp", "caldav", "REPORT", "coll", xmlHdr + `<C:calendar-multiget xmlns:D="DAV:" xmlns:C="` + nsCal + `"><D:prop><C:calendar-data><C:comp name="VCALENDAR"><C:allcomp/><C:comp name="VEVENT"/></C:comp></C:calendar-data></D:prop><D:href>/u/cal/work/e0.ics</D:href></C:calendar-multiget>`, "application/xml"},
 	{"report-wrong-root", "caldav", "REPORT", "coll", xmlHdr + `<C:free-busy-query xmlns:C="` + nsCal + `"/>`, "application/xml"},
@@ -205,6 +209,11 @@ var unsupportedDepth = map[string][]string{"MOVE": {"0", "1"}, "COPY": {"1"}}
 // junkConditionals are If-Match / If-None-Match values from the edge of the
 // grammar; a handler may refuse them (4xx) or ignore them, never panic.
 var junkConditionals = []string{`"`, `W/"`, `W/`, `""`, `"\`, `\"`, `"a`, `a"`, `'`, `W/""`, `"\""`, "\"\x00\"", `"` + "\t" + `"`, `*, "a"`, `"a" , "b"`, `W/*`, `"\u`, `"\x4`, "\"\xff\""}
+
+// exoticEncodings: XML declarations naming an encoding the server may or may
+// not support. Supporting it (207) and refusing it (4xx) are both fine; a
+// panic or a 5xx for a document the server simply cannot read is not.
+var exoticEncodings = []string{"windows-1252", "UTF-16", "koi8-r", "ISO-8859-1", "US-ASCII", "utf-16le", "x-unknown", "EBCDIC-CP-US", ""}
 
 var invalidHeaders = [][2]string{
 	{"Depth", "2"}, {"Depth", "-1"}, {"Depth", "infinite"}, {"Depth", "0, 1"}, {"Depth", "1.0"},
@@ -354,7 +363,7 @@ func davRequest(r *rt.Rand, server string, p davPaths) *Step {
 			st.Method, st.Target = "PUT", rt.Pick(r, []string{"/f", "/d/f.txt", "/new", "/d/new", "/d"})
 			setBody("put-file", "file content "+strings.Repeat("x", r.Intn(200)))
 		default:
-			st.Method, st.Target, st.Kind = rt.Pick(r, []string{"GET", "HEAD", "DELETE", "OPTIONS", "COPY", "MOVE", "LOCK", "POST"}), fp, "other"
+			st.Method, st.Target, st.Kind = rt.Pick(r, []string{"GET", "HEAD", "DELETE", "OPTIONS", "COPY", "MOVE", "COPY", "MOVE", "LOCK", "POST"}), fp, "other"
 			if st.Method == "COPY" || st.Method == "MOVE" {
 				st.set("Destination", "/copied")
 			}
@@ -432,6 +441,15 @@ func GenC13(seed uint64, tier string) *Plan {
 			}
 			st.Headers = append(hs, [2]string{"Depth", v})
 			st.Malformed = "header:Depth=" + v + " (unsupported for " + st.Method + ")"
+		case f == 0 && len(st.Body) > 0 && isXMLMethod(st.Method) && r.Chance(0.08):
+			enc := rt.Pick(r, exoticEncodings)
+			body := string(st.Body)
+			if i := strings.Index(body, "?>"); i >= 0 {
+				body = `<?xml version="1.0" encoding="` + enc + `"?>` + body[i+2:]
+				st.Body = []byte(body)
+				st.DocEnd = len(body)
+				st.Kind += "+encoding"
+			}
 		case f == 3: // invalid header value
 			h := rt.Pick(r, invalidHeaders)
 			applies := (h[0] == "Depth" && (st.Method == "PROPFIND" || st.Method == "COPY" || st.Method == "MOVE")) || (h[0] != "Depth" && (st.Method == "COPY" || st.Method == "MOVE"))
@@ -444,6 +462,20 @@ func GenC13(seed uint64, tier string) *Plan {
 				}
 				st.Headers = append(hs, h)
 				st.Malformed = "header:" + h[0] + "=" + h[1]
+				if st.Method == "COPY" || st.Method == "MOVE" {
+					// other, valid headers around it: parsing them must not mask the bad one
+					if h[0] != "Depth" && r.Chance(0.6) {
+						st.set("Depth", "infinity")
+					}
+					if h[0] != "Overwrite" && r.Chance(0.5) {
+						st.set("Overwrite", rt.Pick(r, []string{"T", "F"}))
+					}
+					if h[0] != "Destination" {
+						if _, ok := st.Header("Destination"); !ok {
+							st.set("Destination", "/copied-"+fmt.Sprint(r.Intn(9)))
+						}
+					}
+				}
 			}
 		case f == 4: // hand-written malformed document
 			var cand []malformedDoc
